@@ -83,22 +83,21 @@ func (l *Listener) Accept() (net.Conn, error) {
 		}
 		dl := l.deadline
 		l.mu.Unlock()
-		if dl.IsZero() {
-			<-l.wake
-			continue
-		}
-		d := time.Until(dl)
-		if d <= 0 {
+		if !dl.IsZero() && time.Until(dl) <= 0 {
 			l.w.Fault("accept-timeout")
 			l.w.Rec(Ev{Actor: "acceptor", Kind: "accept-end", S: "timeout"})
 			return nil, &net.OpError{Op: "accept", Net: "tcp", Err: timeoutError{}}
 		}
-		t := time.NewTimer(d)
-		select {
-		case <-l.wake:
-			t.Stop()
-		case <-t.C:
-		}
+		<-l.wake // deadlines are signalled by World.ExpireDeadlines after clock advances
+	}
+}
+
+func (l *Listener) expire() {
+	l.mu.Lock()
+	hit := !l.deadline.IsZero() && !time.Now().Before(l.deadline) && !l.closed
+	l.mu.Unlock()
+	if hit {
+		l.poke()
 	}
 }
 
